@@ -1,22 +1,24 @@
 ------------------------------ MODULE CacheCases ------------------------------
 (* C11, the exhaustive product: every batch of <= MaxBatch entries over three keys (duplicates included; one
    representative per renaming of the keys) x DoMultiCache / DoCache(MGET) x every assignment of a cache state
-   (hit, pending by another caller, miss, expired) to the keys of the batch.  Each case is a scripted behaviour of
+   (hit, pending by another caller, miss, expired, pfail = pending by another caller whose request then FAILS -- at
+   most one key) to the keys of the batch, x (round 2) the batch's own first transaction aborted or not (cfail; only
+   without a pfail key, so that one failure is in play at a time).  Each case is a scripted behaviour of
    CacheProto (AtomicCall = TRUE): populate the keys that are to be expired, let the TTL pass, populate the hits, let
    another caller open the pending flights (its replies are held back), issue the batch, deliver everything.  TLC
    prints the behaviour with the outcome the specification predicts at every step; harness/cmd/cachedrv replays it on
    the real client (single wire, multiplexed wires, cluster). *)
 EXTENDS CacheProto, Json
 
-VARIABLES ph, cbatch, ckind, cstate
-cvars == <<ph, cbatch, ckind, cstate>>
+VARIABLES ph, cbatch, ckind, cstate, cfail
+cvars == <<ph, cbatch, ckind, cstate, cfail>>
 
 K3 == <<"ka", "kb", "kc">>
 KeySeqs == UNION {[1..n -> Keys] : n \in 1..MaxBatch}
 \* one representative per renaming: keys appear in the order ka, kb, kc
 Canon(s) == \A i \in 1..Len(s) : \A j \in 2..3 : s[i] = K3[j] => \E i2 \in 1..(i - 1) : s[i2] = K3[j - 1]
 Used(s) == {s[i] : i \in 1..Len(s)}
-States == {"hit", "pend", "miss", "exp"}
+States == {"hit", "pend", "miss", "exp", "pfail"}
 \* the keys in state st, in key order, as identities of GET
 InState(st) == LET I == {j \in 1..3 : K3[j] \in DOMAIN cstate /\ cstate[K3[j]] = st} IN
                [n \in 1..Cardinality(I) |-> <<K3[CHOOSE j \in I : Cardinality({j2 \in I : j2 < j}) = n - 1], GetCmd>>]
@@ -25,14 +27,16 @@ CaseInit == /\ Init
             /\ ph = -3
             /\ cbatch \in {s \in KeySeqs : Canon(s)}
             /\ ckind \in (IF Len(cbatch) >= 2 THEN {"multi", "mget"} ELSE {"multi"})
-            /\ cstate \in [Used(cbatch) -> States]
+            /\ cstate \in {f \in [Used(cbatch) -> States] : Cardinality({k \in Used(cbatch) : f[k] = "pfail"}) <= 1}
+            /\ cfail \in {c \in BOOLEAN : c => /\ \A k1 \in Used(cbatch) : cstate[k1] # "pfail"
+                                                /\ \E k2 \in Used(cbatch) : cstate[k2] \in {"miss", "exp"}}
 
 Multi(ids) == [kind |-> "multi", ids |-> ids]
 Skip == UNCHANGED vars
 Internal == \E c \in Callers : Abort(c) \/ ConnErr(c) \/ DoCancel(c) \/ CancelDone(c) \/ WaitAll(c) \/ AsmErr(c) \/ Return(c)
 
 \* -3..-1 every key of the batch is written once (so that the values embed their key), 1 populate the keys to expire, 2 drain, 3 expiry, 35 populate the hits, 4 drain, 5 pending flights of caller 2,
-\* 6 the batch, 7 drain, 8 done
+\* 55 the flight of caller 4 that fails, 6 the batch, 7 drain, 8 done
 PhaseNext ==
     IF ph < 0 THEN /\ (IF K3[ph + 4] \in Used(cbatch) THEN Write(K3[ph + 4]) ELSE Skip) /\ ph' = ph + 1
     ELSE IF ph = 0 THEN Skip /\ ph' = 1
@@ -42,15 +46,16 @@ PhaseNext ==
     ELSE IF ph \in {2, 4, 7} /\ wire # <<>> THEN Reader /\ ph' = ph
     ELSE IF ph = 1 THEN /\ (IF InState("exp") # <<>> THEN StartA(3, Multi(InState("exp")), FALSE) ELSE Skip) /\ ph' = 2
     ELSE IF ph = 4 THEN Skip /\ ph' = 5
-    ELSE IF ph = 5 THEN /\ (IF InState("pend") # <<>> THEN StartA(2, Multi(InState("pend")), FALSE) ELSE Skip) /\ ph' = 6
-    ELSE IF ph = 6 THEN /\ StartA(1, [kind |-> ckind, ids |-> [i \in 1..Len(cbatch) |-> <<cbatch[i], GetCmd>>]], FALSE) /\ ph' = 7
+    ELSE IF ph = 5 THEN /\ (IF InState("pend") # <<>> THEN StartA(2, Multi(InState("pend")), FALSE) ELSE Skip) /\ ph' = 55
+    ELSE IF ph = 55 THEN /\ (IF InState("pfail") # <<>> THEN StartA(4, Multi(InState("pfail")), TRUE) ELSE Skip) /\ ph' = 6
+    ELSE IF ph = 6 THEN /\ StartA(1, [kind |-> ckind, ids |-> [i \in 1..Len(cbatch) |-> <<cbatch[i], GetCmd>>]], cfail) /\ ph' = 7
     ELSE IF ph = 7 THEN Skip /\ ph' = 8
     ELSE FALSE
 
 CaseNext == IF InternalEnabled THEN Internal /\ UNCHANGED cvars
-            ELSE PhaseNext /\ UNCHANGED <<cbatch, ckind, cstate>>
+            ELSE PhaseNext /\ UNCHANGED <<cbatch, ckind, cstate, cfail>>
 CaseSpec == CaseInit /\ [][CaseNext]_<<vars, cvars>>
 
 CasePrint == (ph = 8 /\ ~InternalEnabled) =>
-                PrintT(<<"CASE", ToJson([steps |-> hist, flags |-> {}, batch |-> cbatch, kind |-> ckind, state |-> cstate])>>)
+                PrintT(<<"CASE", ToJson([steps |-> hist, flags |-> {}, batch |-> cbatch, kind |-> ckind, state |-> cstate, cfail |-> cfail])>>)
 =============================================================================
